@@ -131,6 +131,17 @@ def run(p, report, tier):
             zeroed = True
     report.add("R18.3", "simple_batch", "NaN probabilities zeroed before the draw", f"{sb.file}:{ch.lineno}", zeroed,
                detail=f"p = `{pname}`")
+    # p is a pure scaling of the utilities (no additive shift: a zero weight stays zero)
+    pdefs = [n for n in ast.walk(sb.node) if isinstance(n, ast.Assign) and pname and any(
+        isinstance(t, ast.Name) and t.id == pname for t in n.targets)]
+    pure = bool(pdefs) and all(isinstance(d.value, ast.BinOp) and isinstance(d.value.op, ast.Div)
+                               and isinstance(d.value.left, ast.Name) and isinstance(d.value.right, ast.Call)
+                               and c01.callname(d.value.right) in ("nansum", "sum")
+                               and d.value.right.args and isinstance(d.value.right.args[0], ast.Name)
+                               and d.value.right.args[0].id == d.value.left.id for d in pdefs)
+    report.add("R18.3", "simple_batch", "sampling probabilities are utilities / nansum(utilities)", f"{sb.file}:{ch.lineno}", pure,
+               detail="pure scaling: zero weight keeps zero probability" if pure else
+               "the probabilities are not a pure scaling of the utilities (additive smoothing gives zero-weight entries positive mass)")
     # rows mask best[:i]
     res = None
     if isinstance(ch_stmt, ast.Assign) and isinstance(ch_stmt.targets[0], ast.Name):
